@@ -258,6 +258,9 @@ TRUSTED = [
     "(the outcome may depend on the unspecified tie order); tie handling is checked at helper and filter level by the tie-robust predicate, which is "
     "proved complete for every tie order and sound off the window edges (C05_checker_*)",
     "the scripted optimizer plug-in and the table evaluator of the seq cases (harness code); EnsembleOptimizer/plan steps as executed by the real code",
+    "gradient entries whose row keeps at most 1e-9 of its mass after the realizations lost to perturbation failures are zeroed are not compared with the "
+    "model (whether a staircase remainder of rounding size is 0 or 1e-17 -- NaN or a slope after normalisation -- is decided by the rounding of p*n); "
+    "the Python oracle still judges them against the weights the implementation reports",
 ]
 
 MANIFEST = {
